@@ -72,10 +72,11 @@ class Check:
             return
         self.evaluations += evals
         self.obligations += 1
-        if kind == 'anchor-lost' and self.soft_cfg and not self.only and rule.split(':')[0] in self.soft_cfg['soft']:
+        if self.soft_cfg and not self.only and rule.split(':')[0] in self.soft_cfg['soft'] and \
+                (kind == 'anchor-lost' or (kind == 'violation' and not any(key.startswith(p) for p in self.soft_cfg.get('strong', ())))):
             self.evaluations -= evals
             self.obligations -= 1
-            self.pending_soft.append(dict(rule=rule, key=key, where=where, detail=detail, evals=evals, construct=construct))
+            self.pending_soft.append(dict(rule=rule, key=key, where=where, detail=detail, evals=evals, construct=construct, kind=kind))
             return
         if kind == 'anchor-lost' and self._soft_ok():
             # a shape rule did not recognise the code, but the functional rules that decide the same clauses on bounded
@@ -179,12 +180,14 @@ class Check:
         cfg_saved, self.soft_cfg = self.soft_cfg, None          # report for real from here on
         for p in pend:
             if ok:
-                self.instances.append(dict(rule=p['rule'], key=p['key'], status='UNDECIDED-SHAPE', where=p['where'],
+                st = 'UNDECIDED-SHAPE' if p.get('kind', 'anchor-lost') == 'anchor-lost' else 'UNCONFIRMED-SHAPE'
+                self.instances.append(dict(rule=p['rule'], key=p['key'], status=st, where=p['where'],
                                            detail='%s; the clause is decided functionally by the %d OK instances of %s' % (_short(p['detail'], 200), len(tw), ', '.join(cfg['twins']))))
-                print('SKIP rule=%s key=%s shape not recognised (%s); clause decided functionally by %s (%d instances OK)' % (
-                    p['rule'], p['key'], _short(p['detail'], 100), ', '.join(cfg['twins']), len(tw)))
+                print('SKIP rule=%s key=%s %s (%s); clause decided functionally by %s (%d instances OK)' % (
+                    p['rule'], p['key'], 'shape not recognised' if st == 'UNDECIDED-SHAPE' else 'layout rule not confirmed by any functional rule',
+                    _short(p['detail'], 100), ', '.join(cfg['twins']), len(tw)))
             else:
-                self.violation(p['rule'], p['key'], where=p['where'], detail=p['detail'], kind='anchor-lost', evals=p['evals'], construct=p['construct'])
+                self.violation(p['rule'], p['key'], where=p['where'], detail=p['detail'], kind=p.get('kind', 'anchor-lost'), evals=p['evals'], construct=p['construct'])
         self.soft_cfg = cfg_saved
 
     def finish(self):
